@@ -1008,6 +1008,14 @@ func (s *Sched) fireNext() bool {
 	return true
 }
 
+// SetEarlyTimers switches the "fire the earliest timer now" deviation on or off for the calling thread's run
+// (harnesses keep it off while they build their objects).
+func SetEarlyTimers(on bool) {
+	if t := cur(); t != nil {
+		t.s.EarlyTimers = on
+	}
+}
+
 // Advance moves virtual time forward by d without firing timers whose time has not come; timers that
 // became due fire (in order) the next time the system is idle. Harness use.
 func Advance(d time.Duration) {
